@@ -338,6 +338,8 @@ impl NodeId {
             final(arena).last_free_slot == old(arena).last_free_slot,
             // @ob C08.append_keeps_every_payload_and_stamp C08
             payload_frame(old(arena).nodes@, final(arena).nodes@),
+            // @ob C03.append_of_a_node_already_in_place_is_a_successful_no_op C03
+            (old(arena).at(new_child).parent == Some(self) && old(arena).at(new_child).next_sibling is None && !insert_impossible(old(arena).nodes@, self, new_child)) ==> r is Ok && final(arena).nodes@ == old(arena).nodes@,
             // @ob C03.append_exact_effect C03
             r is Ok ==> exists|m: Seq<Node<T>>| #[trigger]
                 detach_post(old(arena).nodes@, m, new_child.idx()) && insert_post(
@@ -412,6 +414,10 @@ impl NodeId {
                 mid[self.idx()].last_child,
                 None,
             ));
+            if old(arena).at(new_child).parent == Some(self) && old(arena).at(new_child).next_sibling is None {
+                lemma_links_live(old(arena).nodes@, new_child.idx());
+                lemma_reinsert_noop(old(arena).nodes@, mid, arena.nodes@, w, new_child);
+            }
         }
         Ok(())
     }
@@ -539,6 +545,8 @@ impl NodeId {
             final(arena).last_free_slot == old(arena).last_free_slot,
             // @ob C08.prepend_keeps_every_payload_and_stamp C08
             payload_frame(old(arena).nodes@, final(arena).nodes@),
+            // @ob C03.prepend_of_a_node_already_in_place_is_a_successful_no_op C03
+            (old(arena).at(new_child).parent == Some(self) && old(arena).at(new_child).previous_sibling is None && !insert_impossible(old(arena).nodes@, self, new_child)) ==> r is Ok && final(arena).nodes@ == old(arena).nodes@,
             // @ob C03.prepend_exact_effect C03
             r is Ok ==> exists|m: Seq<Node<T>>| #[trigger]
                 detach_post(old(arena).nodes@, m, new_child.idx()) && insert_post(
@@ -613,6 +621,10 @@ impl NodeId {
                 None,
                 mid[self.idx()].first_child,
             ));
+            if old(arena).at(new_child).parent == Some(self) && old(arena).at(new_child).previous_sibling is None {
+                lemma_links_live(old(arena).nodes@, new_child.idx());
+                lemma_reinsert_noop(old(arena).nodes@, mid, arena.nodes@, w, new_child);
+            }
         }
         Ok(())
     }
@@ -683,6 +695,8 @@ impl NodeId {
             final(arena).last_free_slot == old(arena).last_free_slot,
             // @ob C08.insert_after_keeps_every_payload_and_stamp C08
             payload_frame(old(arena).nodes@, final(arena).nodes@),
+            // @ob C03.insert_after_of_a_node_already_in_place_is_a_successful_no_op C03
+            (old(arena).at(new_sibling).previous_sibling == Some(self) && !insert_impossible(old(arena).nodes@, self, new_sibling)) ==> r is Ok && final(arena).nodes@ == old(arena).nodes@,
             // @ob C03.insert_after_exact_effect C03
             r is Ok ==> exists|m: Seq<Node<T>>| #[trigger]
                 detach_post(old(arena).nodes@, m, new_sibling.idx()) && insert_post(
@@ -761,6 +775,11 @@ impl NodeId {
                 Some(self),
                 mid[self.idx()].next_sibling,
             ));
+            if old(arena).at(new_sibling).previous_sibling == Some(self) {
+                lemma_links_live(old(arena).nodes@, new_sibling.idx());
+                lemma_sibling_facts(old(arena).nodes@, new_sibling.idx());
+                lemma_reinsert_noop(old(arena).nodes@, mid, arena.nodes@, w, new_sibling);
+            }
         }
         Ok(())
     }
@@ -831,6 +850,8 @@ impl NodeId {
             final(arena).last_free_slot == old(arena).last_free_slot,
             // @ob C08.insert_before_keeps_every_payload_and_stamp C08
             payload_frame(old(arena).nodes@, final(arena).nodes@),
+            // @ob C03.insert_before_of_a_node_already_in_place_is_a_successful_no_op C03
+            (old(arena).at(new_sibling).next_sibling == Some(self) && !insert_impossible(old(arena).nodes@, self, new_sibling)) ==> r is Ok && final(arena).nodes@ == old(arena).nodes@,
             // @ob C03.insert_before_exact_effect C03
             r is Ok ==> exists|m: Seq<Node<T>>| #[trigger]
                 detach_post(old(arena).nodes@, m, new_sibling.idx()) && insert_post(
@@ -909,6 +930,11 @@ impl NodeId {
                 mid[self.idx()].previous_sibling,
                 Some(self),
             ));
+            if old(arena).at(new_sibling).next_sibling == Some(self) {
+                lemma_links_live(old(arena).nodes@, new_sibling.idx());
+                lemma_sibling_facts(old(arena).nodes@, new_sibling.idx());
+                lemma_reinsert_noop(old(arena).nodes@, mid, arena.nodes@, w, new_sibling);
+            }
         }
         Ok(())
     }
